@@ -50,6 +50,7 @@ int main(int argc, char **argv) {
       else if (op == "add") { w_add(mem, &a2, &p1); reinterpret_cast<S2 *>(mem)->~S2(); }
       else if (op == "mul") { w_mul(mem, &a2, &p1); reinterpret_cast<S3 *>(mem)->~S3(); }
       else if (op == "scale") { w_scale(mem, &a2, 1.5); reinterpret_cast<S2 *>(mem)->~S2(); }
+      else if (op == "classscalar") (void)w_classscalar(0.25 + tid);
       else if (op == "lincomb") { w_lincomb(mem, &a1, &p1, 1.5 + tid); reinterpret_cast<S1 *>(mem)->~S1(); }
       else if (op == "applyX1") { w_applyX1(mem, (tid & 1) ? &c2 : &a2); reinterpret_cast<S3 *>(mem)->~S3(); }
       else if (op == "applyX3") { w_applyX3(mem, (tid & 1) ? &b1 : &a1); reinterpret_cast<S4 *>(mem)->~S4(); }
